@@ -1865,7 +1865,264 @@ theorem eviction_transparent (st0 : State) (hinv : Inv colsOf st0) (k : Nat) (op
     rfl
   · rw [show j = recv i k from rfl, hj]; simp [setCaller]
 
+/-- `eviction_transparent` with its per-state hypotheses about the statement object DERIVED from reachability
+(`WF`, preserved by every step: `wf_exec`): the object exists, its text is `q<s>` for the statement `s` its id names.
+What remains a hypothesis is the situation itself: the node still assigns that id (no id change since), can prepare
+the statement, and has the extension. -/
+theorem eviction_transparent_reachable (st0 : State) (hinv : Inv colsOf st0) (hwf : WF st0) (k : Nat) (op : ExecOp)
+    (cached : Option RMeta) (uid : SId)
+    (hc : st0.caller k = ⟨.exec1 op cached, .resp (.unprepared uid)⟩)
+    (hver : (st0.objs op.obj).id.ver = ((st0.node op.node).st (st0.objs op.obj).id.stmt).idv)
+    (hext : (st0.node op.node).ext = true)
+    (hpf : ((st0.node op.node).st (st0.objs op.obj).id.stmt).prepFail = false)
+    (ys0 ys1 ys2 ys3 ys4 : List Step)
+    (h0 : Others k ys0) (h1 : Others k ys1) (h2 : Others k ys2) (h3 : Others k ys3) (h4 : Others k ys4) :
+    let s := (st0.objs op.obj).id.stmt
+    let j := recv (exec (serveStep (exec (recv (exec (serveStep (exec (recv (exec st0 ys0) k).1 ys1) k).1 ys2) k).1 ys3) k).1 ys4) k
+    let cols := ((st0.node op.node).st s).smeta.cols
+    (∃ m more, j.2 = .done (.rows m (some (typedRows cols (op.values.headD 0) op.pageSize op.ps)) more) ∧ m.cols = cols) ∧
+    j.1.caller k = ⟨.idle, .none⟩ := by
+  have hpc : PcOK st0.nObjs (st0.caller k).pc := (hwf.2.2 k).1
+  rw [hc] at hpc
+  have hobj : op.obj < st0.nObjs := hpc
+  obtain ⟨s, hs, htext, hst⟩ := hwf.1 op.obj hobj
+  have hid : (st0.objs op.obj).id = idOf s (((st0.node op.node).st s).idv) := by
+    cases hi : (st0.objs op.obj).id with
+    | mk a b => rw [hi] at hst hver; simp only at hst hver; subst hst; rw [hver]; rfl
+  have := eviction_transparent colsOf st0 hinv k op cached uid s hc hobj hs htext hid hext (hst ▸ hpf)
+    ys0 ys1 ys2 ys3 ys4 h0 h1 h2 h3 h4
+  simp only at this
+  rw [hst]
+  exact ⟨this.2.2.2.1, this.2.2.2.2⟩
+
+/-- "the re-sent EXECUTE equals the FIRST one": the operation record `op` that `eviction_transparent` /
+`eviction_resend_any_node` compare the re-sent frame with IS what the first frame said - from the moment the
+execution was started, through any steps of other callers. -/
+theorem first_frame_determines_op (st : State) (k : Nat) (a : ExecArgs) (o : Nat)
+    (hidle : st.caller k = ⟨.idle, .none⟩) (hslot : st.slot a.slot = some o) (ys : List Step) (h : Others k ys) :
+    ∃ op cached r1, (start st k (.execute a)).2 = .sent a.node (.execute r1) ∧
+      (exec (start st k (.execute a)).1 ys).caller k = ⟨.exec1 op cached, .req a.node (.execute r1)⟩ ∧
+      r1.id = (st.objs o).id ∧ r1.values = op.values ∧ r1.cl = op.cl ∧ r1.scl = op.scl ∧ r1.ts = op.ts ∧
+      r1.pageSize = op.pageSize ∧ r1.ps = op.ps ∧ op.obj = o ∧ op.node = a.node ∧
+      r1.values = a.values ∧ r1.cl = a.cl ∧ r1.scl = a.scl ∧ r1.pageSize = a.pageSize ∧ r1.ps = a.ps := by
+  rw [others_caller ys _ k h, request_built_from_current_metadata st k a o hidle hslot]
+  exact ⟨⟨o, a.node, a.useCached, a.cl, a.scl, (drawTs st a.node a.ts).1, a.pageSize, a.ps, a.values⟩,
+    (cachedParams (st.node a.node).ext a.useCached (st.objs o).cur).cached, _, rfl, by simp [setCaller],
+    rfl, rfl, rfl, rfl, rfl, rfl, rfl, rfl, rfl, rfl, rfl, rfl, rfl, rfl⟩
+
+/-- composition: from the start of an execution, through the node's UNPREPARED answer and any steps of other callers,
+to the re-sent EXECUTE: it differs from the FIRST frame at most in the skip flag and the presented metadata id
+(`SameButMetadata`), on any node. -/
+theorem resent_execute_equals_first_frame (st : State) (hinv : Inv colsOf st) (hwf : WF st) (k : Nat) (a : ExecArgs)
+    (o : Nat) (hidle : st.caller k = ⟨.idle, .none⟩) (hslot : st.slot a.slot = some o)
+    (ysA ys0 ys1 ys2 : List Step) (hA : Others k ysA) (h0 : Others k ys0) (h1 : Others k ys1) (h2 : Others k ys2)
+    (uid : SId)
+    (hun : (serveStep (exec (start st k (.execute a)).1 ysA) k).2 = .served (.unprepared uid))
+    (hver : ∀ stU, stU = (serveStep (exec (start st k (.execute a)).1 ysA) k).1 →
+      (stU.objs o).id.ver = ((stU.node a.node).st (stU.objs o).id.stmt).idv ∧
+      ((stU.node a.node).st (stU.objs o).id.stmt).prepFail = false) :
+    ∃ r1 rq, (start st k (.execute a)).2 = .sent a.node (.execute r1) ∧
+      (recv (exec (serveStep (exec (recv (exec (serveStep (exec (start st k (.execute a)).1 ysA) k).1 ys0) k).1 ys1) k).1 ys2) k).2
+        = .sent a.node (.execute rq) ∧ SameButMetadata r1 rq := by
+  obtain ⟨op, cached, r1, hsent, hcal, hr1id, hv, hcl, hscl, hts, hpg, hps, hobjo, hnode, _⟩ :=
+    first_frame_determines_op st k a o hidle hslot ysA hA
+  -- the state in which the UNPREPARED answer is in flight
+  let stS := exec (start st k (.execute a)).1 ysA
+  let stU := (serveStep stS k).1
+  have hinvS : Inv colsOf stS :=
+    inv_exec colsOf ysA _ (by simpa [step] using inv_step colsOf st (.start k (.execute a)) hinv (fun _ _ h => by cases h))
+      (others_eventsOK colsOf ysA k hA)
+  have hwfS : WF stS := wf_exec ysA _ (by simpa [step] using wf_step st (.start k (.execute a)) hwf)
+  have hinvU : Inv colsOf stU := by simpa [step] using inv_step colsOf stS (.serve k) hinvS (fun _ _ h => by cases h)
+  have hwfU : WF stU := by simpa [step] using wf_step stS (.serve k) hwfS
+  have hcU : stU.caller k = ⟨.exec1 op cached, .resp (.unprepared uid)⟩ := by
+    have hS : stS.caller k = ⟨.exec1 op cached, .req a.node (.execute r1)⟩ := hcal
+    have hstep : serveStep stS k =
+        ({ stS with node := upd stS.node a.node (serve (stS.node a.node) (.execute r1)).1,
+                    caller := upd stS.caller k { stS.caller k with wire := .resp (serve (stS.node a.node) (.execute r1)).2 } },
+         .served (serve (stS.node a.node) (.execute r1)).2) := by
+      simp [serveStep, hS]
+    have h3 : (serve (stS.node a.node) (.execute r1)).2 = .unprepared uid := by
+      have h2 : (serveStep stS k).2 = .served (.unprepared uid) := hun
+      rw [hstep] at h2; simpa using h2
+    show (serveStep stS k).1.caller k = _
+    rw [hstep]; simp [hS, h3]
+  have hpc : PcOK stU.nObjs (stU.caller k).pc := (hwfU.2.2 k).1
+  rw [hcU] at hpc
+  have hobj : op.obj < stU.nObjs := hpc
+  obtain ⟨s, hs, htext, hst⟩ := hwfU.1 op.obj hobj
+  obtain ⟨hv1, hv2⟩ := hver stU rfl
+  rw [← hobjo] at hv1 hv2
+  rw [← hnode] at hv1 hv2
+  have hid : (stU.objs op.obj).id = idOf s (((stU.node op.node).st s).idv) := by
+    cases hi : (stU.objs op.obj).id with
+    | mk x y => rw [hi] at hst hv1; simp only at hst hv1; subst hst; rw [hv1]; rfl
+  have hres := eviction_resend_any_node colsOf stU hinvU k op cached uid s hcU hobj hs htext hid (hst ▸ hv2)
+    ys0 ys1 ys2 h0 h1 h2
+  simp only at hres
+  obtain ⟨_, _, rq, hrq, hrqid, hrv, hrcl, hrscl, hrts, hrpg, hrps⟩ := hres
+  refine ⟨r1, rq, hsent, by rw [← hnode]; exact hrq, ?_⟩
+  have hidsame : (stU.objs op.obj).id = (st.objs o).id := by
+    have hoS : o < (start st k (.execute a)).1.nObjs := by
+      have := hwf.2.1 _ _ hslot
+      exact Nat.lt_of_lt_of_le this (by simpa [step] using nObjs_mono_step st (.start k (.execute a)))
+    have e1 := (statement_identity_immutable ysA (start st k (.execute a)).1 o hoS).1
+    have e0 : ((start st k (.execute a)).1.objs o).id = (st.objs o).id := by rw [start_objs]
+    have e2 : (stU.objs o).id = (stS.objs o).id := by
+      have : stU.objs = stS.objs := by show (serveStep stS k).1.objs = _; simp only [serveStep]; split <;> rfl
+      rw [this]
+    rw [hobjo, e2]; exact e1.trans e0
+  exact ⟨by rw [hr1id, hrqid, hidsame], by rw [hv, hrv], by rw [hcl, hrcl], by rw [hscl, hrscl], by rw [hts, hrts],
+    by rw [hpg, hrpg], by rw [hps, hrps]⟩
+
 end EndToEnd
+
+/-! ### batches: one round of the re-prepare loop, and the transparent case -/
+
+private theorem findInBatch_congr (f g : Nat → Stmt) (id : SId) (items : List (Nat × List Nat))
+    (h : ∀ it ∈ items, (g it.1).id = (f it.1).id) : findInBatch g id items = findInBatch f id items := by
+  induction items with
+  | nil => rfl
+  | cons x xs ih =>
+    obtain ⟨o, v⟩ := x
+    simp only [findInBatch]
+    rw [h (o, v) (by simp), ih (fun it hit => h it (by simp [hit]))]
+
+private theorem firstUnknown_none (prepared : List SId) (stmts : List (SId × List Nat))
+    (h : ∀ e ∈ stmts, prepared.contains e.1 = true) : firstUnknown prepared stmts = none := by
+  induction stmts with
+  | nil => rfl
+  | cons x xs ih =>
+    obtain ⟨id, v⟩ := x
+    have hx := h (id, v) (by simp)
+    simp only at hx
+    simp only [firstUnknown, lookupId, hx, ↓reduceIte, Option.isSome_some]
+    exact ih (fun e he => h e (by simp [he]))
+
+/-- `batch_round_reprepares_named_statement`: ONE ROUND of the loop of connection.rs:1212-1245, at history level. A BATCH
+answered UNPREPARED naming the id of one of its statements (object `o`, statement `s`), on any node that can prepare
+it and still assigns that id; then through ANY interleaving with other callers' steps: the node sees PREPARE of
+exactly THAT statement's text, answers PREPARED with the same id, and sees the whole BATCH again - the identical frame
+(same statements, ids, values, consistency, serial consistency, timestamp). What the node answers to it is the next
+round: the loop has no bound; it ends when the node stops answering UNPREPARED (`batch_eviction_transparent`). -/
+theorem batch_round_reprepares_named_statement (st0 : State) (k : Nat) (op : BatchOp) (frame : BatchReq) (id : SId)
+    (o s : Nat)
+    (hc : st0.caller k = ⟨.batch op frame, .resp (.unprepared id)⟩)
+    (hitems : ∀ it ∈ op.items, it.1 < st0.nObjs)
+    (hfind : findInBatch st0.objs id op.items = some o)
+    (hs : s < 8) (htext : (st0.objs o).text = textOf s)
+    (hid : (st0.objs o).id = idOf s (((st0.node op.node).st s).idv))
+    (hov : (st0.node op.node).ov = none) (hpf : ((st0.node op.node).st s).prepFail = false)
+    (ys0 ys1 ys2 : List Step) (h0 : Others k ys0) (h1 : Others k ys1) (h2 : Others k ys2) :
+    let a := exec st0 ys0
+    let b := recv a k
+    let c := exec b.1 ys1
+    let d := serveStep c k
+    let e := exec d.1 ys2
+    let f := recv e k
+    b.2 = .sent op.node (.prepare (textOf s)) ∧
+    (∃ p, d.2 = .served (.prepared p) ∧ p.id = id) ∧
+    f.2 = .sent op.node (.batch frame) ∧
+    f.1.caller k = ⟨.batch op frame, .req op.node (.batch frame)⟩ ∧
+    Frame st0 f.1 ∧ (f.1.node op.node).prepared.contains id = true := by
+  intro a b c d e f
+  obtain ⟨⟨v, hov'⟩, hoid⟩ := findInBatch_some _ _ _ _ hfind
+  have hobj : o < st0.nObjs := hitems _ hov'
+  have fa : Frame st0 a := others_frame ys0 st0 k h0
+  have hca : a.caller k = ⟨.batch op frame, .resp (.unprepared id)⟩ := by
+    rw [show a = exec st0 ys0 from rfl, others_caller ys0 st0 k h0]; exact hc
+  have hfa : findInBatch a.objs id op.items = some o := by
+    rw [findInBatch_congr st0.objs a.objs id op.items (fun it hit => (fa.ident _ (hitems it hit)).1)]; exact hfind
+  have hta : (a.objs o).text = textOf s := ((fa.ident _ hobj).2).trans htext
+  have hb : b = (setCaller a k ⟨.batchPrep op frame o, .req op.node (.prepare (textOf s))⟩,
+                 .sent op.node (.prepare (textOf s))) := by
+    simp [show b = recv a k from rfl, recv, hca, hfa, send, hta]
+  have fb : Frame st0 b.1 := by
+    rw [hb]; exact ⟨fa.nodeSt, fa.nodeExt, fa.nodeOv, fa.prepared, fa.ident, fa.nObjs⟩
+  have hcb : b.1.caller k = ⟨.batchPrep op frame o, .req op.node (.prepare (textOf s))⟩ := by rw [hb]; simp [setCaller]
+  have fc : Frame st0 c := fb.trans (others_frame ys1 b.1 k h1)
+  have hcc : c.caller k = ⟨.batchPrep op frame o, .req op.node (.prepare (textOf s))⟩ := by
+    rw [show c = exec b.1 ys1 from rfl, others_caller ys1 b.1 k h1]; exact hcb
+  have hovc : (c.node op.node).ov = none := fc.nodeOv _ hov
+  have hstc : (c.node op.node).st = (st0.node op.node).st := fc.nodeSt _
+  have hserve_c := serve_plain_prepare (c.node op.node) (textOf s) s hovc (stmtOfText_textOf s hs)
+    (by rw [hstc]; exact hpf)
+  have hd : d = ({ c with node := upd c.node op.node (serve (c.node op.node) (.prepare (textOf s))).1,
+                          caller := upd c.caller k { c.caller k with wire := .resp (serve (c.node op.node) (.prepare (textOf s))).2 } },
+                 .served (serve (c.node op.node) (.prepare (textOf s))).2) := by
+    simp [show d = serveStep c k from rfl, serveStep, hcc]
+  let pid : SId := idOf s ((c.node op.node).st s).idv
+  have hpid : pid = id := by rw [← hoid, hid, ← hstc]
+  have fd : Frame c d.1 := by
+    have := frame_step c (.serve k) ⟨k, rfl⟩
+    simpa [step] using this
+  have hcd : ∃ p, d.1.caller k = ⟨.batchPrep op frame o, .resp (.prepared p)⟩ ∧ d.2 = .served (.prepared p) ∧ p.id = pid := by
+    rw [hd, hserve_c]
+    exact ⟨_, by simp [hcc], rfl, rfl⟩
+  have hprepd : (d.1.node op.node).prepared.contains pid = true := by
+    rw [hd, hserve_c]; simp [pid]
+  obtain ⟨p, hcdp, hd2, hpidp⟩ := hcd
+  have fe0 : Frame d.1 e := others_frame ys2 d.1 k h2
+  have fe : Frame st0 e := (fc.trans fd).trans fe0
+  have hce : e.caller k = ⟨.batchPrep op frame o, .resp (.prepared p)⟩ := by
+    rw [show e = exec d.1 ys2 from rfl, others_caller ys2 d.1 k h2]; exact hcdp
+  have hide : p.id = (e.objs o).id := by rw [hpidp, hpid, (fe.ident _ hobj).1, hoid]
+  have hf : f = (setCaller (setCur e o (if (prepMeta p).id.isSome ∧ ((e.objs o).cur.colCount = 0 ∨ (prepMeta p).colCount ≠ 0) ∧
+        (e.objs o).cur.id ≠ (prepMeta p).id then prepMeta p else (e.objs o).cur)) k ⟨.batch op frame, .req op.node (.batch frame)⟩,
+      .sent op.node (.batch frame)) := by
+    simp only [show f = recv e k from rfl, recv, hce]
+    rw [reprepare_ok _ _ _ hide]
+    simp [send]
+  have ff : Frame e f.1 := by
+    have := frame_step e (.recv k) ⟨k, rfl⟩
+    simpa [step] using this
+  refine ⟨by rw [hb], ⟨p, hd2, by rw [hpidp, hpid]⟩, by rw [hf], by rw [hf]; simp [setCaller], fe.trans ff, ?_⟩
+  rw [← hpid]
+  exact ff.prepared _ _ (fe0.prepared _ _ hprepd)
+
+/-- `batch_eviction_transparent`: if, moreover, every other statement of the batch is in the node's cache (the node
+stopped evicting), the re-sent BATCH is answered normally and the caller ends idle with the normal (void) result -
+through any interleaving with other callers' steps. -/
+theorem batch_eviction_transparent (st0 : State) (k : Nat) (op : BatchOp) (frame : BatchReq) (id : SId)
+    (o s : Nat)
+    (hc : st0.caller k = ⟨.batch op frame, .resp (.unprepared id)⟩)
+    (hitems : ∀ it ∈ op.items, it.1 < st0.nObjs)
+    (hfind : findInBatch st0.objs id op.items = some o)
+    (hs : s < 8) (htext : (st0.objs o).text = textOf s)
+    (hid : (st0.objs o).id = idOf s (((st0.node op.node).st s).idv))
+    (hov : (st0.node op.node).ov = none) (hpf : ((st0.node op.node).st s).prepFail = false)
+    (hrest : ∀ e ∈ frame.stmts, e.1 = id ∨ (st0.node op.node).prepared.contains e.1 = true)
+    (ys0 ys1 ys2 ys3 ys4 : List Step)
+    (h0 : Others k ys0) (h1 : Others k ys1) (h2 : Others k ys2) (h3 : Others k ys3) (h4 : Others k ys4) :
+    let f := recv (exec (serveStep (exec (recv (exec st0 ys0) k).1 ys1) k).1 ys2) k
+    let g := exec f.1 ys3
+    let h := serveStep g k
+    let i := exec h.1 ys4
+    let j := recv i k
+    f.2 = .sent op.node (.batch frame) ∧ h.2 = .served .void ∧ j.2 = .done .void ∧ j.1.caller k = ⟨.idle, .none⟩ := by
+  intro f g h i j
+  obtain ⟨_, _, hf2, hcf, ff, hprepf⟩ := batch_round_reprepares_named_statement st0 k op frame id o s hc hitems hfind hs
+    htext hid hov hpf ys0 ys1 ys2 h0 h1 h2
+  have fg : Frame f.1 g := others_frame ys3 f.1 k h3
+  have hcg : g.caller k = ⟨.batch op frame, .req op.node (.batch frame)⟩ := by
+    rw [show g = exec f.1 ys3 from rfl, others_caller ys3 f.1 k h3]; exact hcf
+  have hall : ∀ e ∈ frame.stmts, (g.node op.node).prepared.contains e.1 = true := by
+    intro e he
+    rcases hrest e he with h | h
+    · rw [h]; exact fg.prepared _ _ hprepf
+    · exact fg.prepared _ _ (ff.prepared _ _ h)
+  have hserve : serve (g.node op.node) (.batch frame) = (g.node op.node, .void) := by
+    simp [serve, firstUnknown_none _ _ hall]
+  have hh : h = ({ g with node := upd g.node op.node (g.node op.node),
+                          caller := upd g.caller k { g.caller k with wire := .resp .void } }, .served .void) := by
+    simp [show h = serveStep g k from rfl, serveStep, hcg, hserve]
+  have hch : h.1.caller k = ⟨.batch op frame, .resp .void⟩ := by rw [hh]; simp [hcg]
+  have hci : i.caller k = ⟨.batch op frame, .resp .void⟩ := by
+    rw [show i = exec h.1 ys4 from rfl, others_caller ys4 h.1 k h4]; exact hch
+  have hj : j = (setCaller i k ⟨.idle, .none⟩, .done .void) := by
+    simp [show j = recv i k from rfl, recv, hci, finish]
+  exact ⟨hf2, by rw [hh], by rw [hj], by rw [hj]; simp [setCaller]⟩
+
 
 /-! ## Part B.2 — a cluster without the extension: the current metadata is the one announced at preparation -/
 
@@ -2140,6 +2397,28 @@ example :
     (st.node 0).ext = true ∧ ((st.node 0).st 0).prepFail = false :=
   ⟨inv_exec exCols _ _ exState_inv (by simp [exHistory, EventsOK, EventOK, exCols]),
    by decide +kernel, by decide +kernel, by decide +kernel, by decide +kernel, by decide +kernel, by decide +kernel⟩
+
+theorem exState_wf (ext : Bool) : WF (exState ext) :=
+  ⟨fun o h => absurd h (by simp [exState]), fun s o h => by simp [exState] at h, fun _ => ⟨trivial, trivial⟩⟩
+
+/-- a batch of two executions of statement 0, evicted: UNPREPARED in flight -/
+def exBatchHistory : List Step :=
+  [.start 0 (.prepare 0 0), .serve 0, .recv 0, .event 0 (.evict 0),
+   .start 0 (.batch ⟨0, 6, some 8, some 5, [(0, [1]), (0, [2])]⟩), .serve 0]
+
+/-- `batch_round_reprepares_named_statement` / `batch_eviction_transparent` are not vacuous -/
+example :
+    let st := exec (exState true) exBatchHistory
+    let frame : BatchReq := ⟨[(⟨0, 0⟩, [1]), (⟨0, 0⟩, [2])], 6, some 8, some 5⟩
+    st.caller 0 = ⟨.batch ⟨0, 6, some 8, some 5, [(0, [1]), (0, [2])]⟩ frame, .resp (.unprepared ⟨0, 0⟩)⟩ ∧
+    (∀ it ∈ [((0 : Nat), [1]), (0, [2])], it.1 < st.nObjs) ∧
+    findInBatch st.objs ⟨0, 0⟩ [(0, [1]), (0, [2])] = some 0 ∧
+    (st.objs 0).text = textOf 0 ∧ (st.objs 0).id = idOf 0 (((st.node 0).st 0).idv) ∧
+    (st.node 0).ov = none ∧ ((st.node 0).st 0).prepFail = false ∧
+    (∀ e ∈ frame.stmts, e.1 = (⟨0, 0⟩ : SId) ∨ (st.node 0).prepared.contains e.1 = true) ∧
+    WF st :=
+  ⟨by decide +kernel, by decide +kernel, by decide +kernel, by decide +kernel, by decide +kernel, by decide +kernel,
+   by decide +kernel, by decide +kernel, wf_exec _ _ (exState_wf true)⟩
 
 /-! ## F-C14-1: what is FALSE of the current code, and the part that holds
 
